@@ -231,6 +231,13 @@ func RunRaceHistory(o HistOpts) *HistResult {
 	}
 	for try := 0; try < 8; try++ {
 		cfg = g.Config()
+		if o.Hist%2 == 1 {
+			// with the exporter on, handlers and reconfigure() also take the process-wide metrics gatherer lock
+			if cfg.Common == nil {
+				cfg.Common = &CommonCfg{}
+			}
+			cfg.Common.PrometheusExport = true
+		}
 		if halfA != nil {
 			av := cfgpolicy.Constraints{"cpu": cfgpolicy.Amount("cpuset:" + sysgen.CPUList(halfA))}
 			rs := cfgpolicy.Constraints{"cpu": cfgpolicy.Amount(fmt.Sprintf("cpuset:%d", halfA[0]))}
